@@ -258,7 +258,10 @@ def run(ctx: Ctx):
     from ..rules import accum
 
     r10 = accum.run_accum(ctx.p, "C17.10", "C17", floor=2)
-    return [rule_palette_order(ctx), rule_palette_notify(ctx), rule_palette_cache(ctx), rule_palette_total(ctx), rule_attrmap(ctx), r6, r7, r8, r9, r10]
+    from ..rules import loopfresh
+
+    r11 = loopfresh.run_loopfresh(ctx.p, "C17.11", "C17", floor=3)
+    return [rule_palette_order(ctx), rule_palette_notify(ctx), rule_palette_cache(ctx), rule_palette_total(ctx), rule_attrmap(ctx), r6, r7, r8, r9, r10, r11]
 
 
 _CM = "urwid/display/common.py"
